@@ -73,6 +73,10 @@ PATHNAMES = {"_oxidative_phosphorylation": "oxidative", "_glycolysis": "glycolys
 SCOPE = None
 
 
+def _show(caps):
+    return None if caps is None else sorted(str(getattr(c, "value", c)) for c in caps)
+
+
 def _dec(names):
     return [(_ENUM[c] if c in _ENUM else c) for c in names]
 
@@ -354,8 +358,8 @@ def run(plan, k):
             k.ev("tool_body", [name, rid, site])
             if forbidden(req):
                 k.violation("least_privilege", "forbidden_tool_ran", site,
-                            f"tool {name!r} requires {sorted(map(str, req))}, ceiling "
-                            f"{None if world['a_now'] is None else sorted(map(str, world['a_now']))}")
+                            f"tool {name!r} requires {_show(req)}, ceiling {_show(world['a_now'])}"
+                            + (f" (constructed with {_show(a_ctor)})" if world["changed"] else ""))
             else:
                 k.probe("allowed_tool_ran")
             if raises:
